@@ -156,6 +156,14 @@ simple("C11", "exploration",
        batches=(16, 64), timeout=(900, 3000))
 
 
+simple("C03", "fault_enumeration",
+       "in-process layer: controller.Run on hwmon/file devices in the virtual driver; regulation stopped when the n-th device I/O operation is issued (n random in 1..400 resp. 1..1500 "
+       "with initial analysis, and densely in 1..12) or after a delay falling into the start-up wait / first-second delay / ticking, or never (fan stalls at maximum = fatal control error); "
+       "x original mode {0,1,2,5} x original PWM {0,77,255} x with/without control mode x restore faults {mode write refused / silently ignored / sticks to 1, PWM write refused}; "
+       "oracle on the device state after Run returned; non-trivial = stop point reached; distinct by (class, stop point)",
+       TRUST_L1 + ["fixed waits of the controller divided by 50 (tick rates 3-4 ms)"], batches=(16, 32))
+
+
 def c14(p, tier, work, t0, replay):
     _src, vh = build_vh(work)
     q = tier == "quick"
